@@ -8,5 +8,7 @@ CONSTANTS
   PreFix = FALSE
   CoarseCancel = FALSE
   Modes = {"none", "nowait", "wait"}
+  Modes2 = {"none"}
+  NeverExits = {}
   Mutation = "result_ignores_exc"
 INVARIANTS TimeoutIsUnknown
